@@ -43,3 +43,10 @@ package name
 
 // Assumed: the accessors and the pattern comparison of a Name only read.
 //@ pureiface Name Get Is ComparePattern
+
+// Load (property C26): parsing a swamp name never panics, whatever the string (fewer than three
+// parts yield empty parts).
+//@ func Load(path) (n)
+//@   property C26
+//@   nopanic
+//@   ensures[result] n != nil
